@@ -23,9 +23,9 @@ def payload_variant(case, which, rnd):
         elif b == "utf8":
             p = ["s:", "s:zz", "s:payload"][which]
         elif b in ops.FLOATS:
-            p = [ops.fhex(0.0), ops.fhex(7.5), ops.fhex(-1e30 if b == "float64" else -1e30)][which]
-            if b == "float32":
-                p = [ops.fhex(0.0), ops.fhex(7.5), ops.fhex(ops.f32(-1e30))][which]
+            # the second variant is finite, NaN or infinite: a payload must not leak through 0 * payload either
+            alt = random.Random(case["id"]).choice([ops.fhex(7.5), "nan", ops.fhex(float("inf")), ops.fhex(float("-inf")), ops.fhex(ops.f32(-1e30))])
+            p = [ops.fhex(0.0), alt, ops.fhex(ops.f32(-1e30))][which]
         else:
             lo, hi = ops.IINFO[b]
             p = [0, 7, hi][which]
